@@ -76,9 +76,9 @@ func checkC13(w *World, r *Report) {
 		names, _ := nodeTypeNames(w)
 		// SchemaType constant names
 		stNames := map[int64]string{}
-		st := ip.Types.Scope().Lookup("SchemaType")
+		st := scopeLookup(ip.Types.Scope(), "SchemaType")
 		for _, n := range ip.Types.Scope().Names() {
-			if c, ok := ip.Types.Scope().Lookup(n).(*types.Const); ok && st != nil && types.Identical(c.Type(), st.Type()) {
+			if c, ok := scopeLookup(ip.Types.Scope(), n).(*types.Const); ok && st != nil && types.Identical(c.Type(), st.Type()) {
 				x, _ := constant.Int64Val(c.Val())
 				stNames[x] = n
 			}
@@ -224,7 +224,7 @@ func checkC13(w *World, r *Report) {
 
 	r.Rule("R13.7", "a derived type never shares restriction storage with another use of its base: the compiler keeps no table of built schema.Type values (each use of a typedef builds its own chain, which is what makes appending a level's patterns/ranges to the base's slices safe)", 1)
 	r.guard("R13.7", func() {
-		ct := w.Pkg("compile").Types.Scope().Lookup("Compiler")
+		ct := scopeLookup(w.Pkg("compile").Types.Scope(), "Compiler")
 		if ct == nil {
 			panic(undecided{"compile.Compiler"})
 		}
@@ -239,7 +239,7 @@ func checkC13(w *World, r *Report) {
 			}
 			switch x := t.(type) {
 			case *types.Named:
-				if x.Obj().Pkg() != nil && x.Obj().Pkg().Name() == "schema" && x.Obj().Name() == "Type" {
+				if x.Obj().Pkg() != nil && nm(x.Obj().Pkg()) == "schema" && nm(x.Obj()) == "Type" {
 					return true
 				}
 				return false
@@ -270,7 +270,7 @@ func checkC13(w *World, r *Report) {
 			panic(undecided{"Compiler.validateRestrictions"})
 		}
 		found, ok, why := loopOnlyLeavesAtHead(f, func(c ssa.CallInstruction) bool {
-			return c.Common().IsInvoke() && c.Common().Method.Name() == "IsTypeRestriction" || (c.Common().StaticCallee() != nil && c.Common().StaticCallee().Name() == "IsTypeRestriction")
+			return c.Common().IsInvoke() && nm(c.Common().Method) == "IsTypeRestriction" || (c.Common().StaticCallee() != nil && nm(c.Common().StaticCallee()) == "IsTypeRestriction")
 		})
 		if !found {
 			panic(undecided{"validateRestrictions: loop over the substatements"})
@@ -305,11 +305,11 @@ func checkC13(w *World, r *Report) {
 				break
 			}
 			call, ok := v.(*ssa.Call)
-			if !ok || call.Call.StaticCallee() == nil || call.Call.StaticCallee().Name() != "NewDecimal64" {
+			if !ok || call.Call.StaticCallee() == nil || nm(call.Call.StaticCallee()) != "NewDecimal64" {
 				continue
 			}
 			pos = call.Pos()
-			if fd, ok := call.Call.Args[1].(*ssa.Call); ok && fd.Call.IsInvoke() && fd.Call.Method.Name() == "Fd" {
+			if fd, ok := call.Call.Args[1].(*ssa.Call); ok && fd.Call.IsInvoke() && nm(fd.Call.Method) == "Fd" {
 				okFd = true
 			}
 		}
@@ -383,7 +383,7 @@ func c13Base10(w *World, r *Report) {
 			}
 			for _, ce := range callsIn(p, fd.Body) {
 				c := calleeOf(p, ce)
-				if c == nil || c.Pkg() == nil || c.Pkg().Path() != "strconv" || (c.Name() != "ParseInt" && c.Name() != "ParseUint") || len(ce.Args) != 3 {
+				if c == nil || c.Pkg() == nil || c.Pkg().Path() != "strconv" || (nm(c) != "ParseInt" && nm(c) != "ParseUint") || len(ce.Args) != 3 {
 					continue
 				}
 				inst := key + "." + funcDeclName(fd) + ": " + c.Name() + "(" + types.ExprString(ce.Args[0]) + ")"
@@ -742,7 +742,7 @@ func c13RangeNarrowing(w *World, r *Report, pos token.Pos) {
 							arg = fmt.Sprint(k)
 						} else if bo, ok := cc.Args[0].(*ssa.BinOp); ok && bo.Op == token.SUB {
 							if one, ok := intConstOf(bo.Y); ok && one == 1 {
-								if lc, ok := bo.X.(*ssa.Call); ok && lc.Call.IsInvoke() && lc.Call.Method.Name() == "Len" {
+								if lc, ok := bo.X.(*ssa.Call); ok && lc.Call.IsInvoke() && nm(lc.Call.Method) == "Len" {
 									arg = "Len()-1"
 								}
 							}
@@ -804,7 +804,7 @@ func c13RangeNarrowing(w *World, r *Report, pos token.Pos) {
 		for _, b := range g.Blocks {
 			for _, in := range b.Instrs {
 				c, ok := in.(*ssa.Call)
-				if !ok || !c.Call.IsInvoke() || (c.Call.Method.Name() != "LessThan" && c.Call.Method.Name() != "GreaterThan") || len(c.Call.Args) != 2 {
+				if !ok || !c.Call.IsInvoke() || (nm(c.Call.Method) != "LessThan" && nm(c.Call.Method) != "GreaterThan") || len(c.Call.Args) != 2 {
 					continue
 				}
 				// does the true outcome lead to an error exit?
